@@ -575,8 +575,12 @@ impl SideMetadataSpec {
                     let lshift = meta_byte_lshift(self, data_addr);
                     let mask = meta_byte_mask(self) << lshift;
                     let metadata_u8 = metadata.to_u8().unwrap();
+                    #[cfg(feature = "verif")]
+                    crate::util::verif::rt::sched_point(crate::util::verif::rt::Kind::AtomicLoad, meta_addr.as_usize());
                     let _ = unsafe {
                         <u8 as MetadataValue>::fetch_update(meta_addr, order, order, |v: u8| {
+                            #[cfg(feature = "verif")]
+                            crate::util::verif::rt::sched_point(crate::util::verif::rt::Kind::AtomicCas, meta_addr.as_usize());
                             Some((v & !mask) | (metadata_u8 << lshift))
                         })
                     };
@@ -770,12 +774,16 @@ impl SideMetadataSpec {
         let lshift = meta_byte_lshift(self, data_addr);
         let mask = meta_byte_mask(self) << lshift;
 
+        #[cfg(feature = "verif")]
+        crate::util::verif::rt::sched_point(crate::util::verif::rt::Kind::AtomicLoad, meta_addr.as_usize());
         let old_raw_byte = unsafe {
             <u8 as MetadataValue>::fetch_update(
                 meta_addr,
                 set_order,
                 fetch_order,
                 |raw_byte: u8| {
+                    #[cfg(feature = "verif")]
+                    crate::util::verif::rt::sched_point(crate::util::verif::rt::Kind::AtomicCas, meta_addr.as_usize());
                     let old_val = (raw_byte & mask) >> lshift;
                     let new_val = update(old_val);
                     let new_raw_byte = (raw_byte & !mask) | ((new_val << lshift) & mask);
@@ -944,11 +952,15 @@ impl SideMetadataSpec {
                     let mask = meta_byte_mask(self) << lshift;
 
                     unsafe {
+                        #[cfg(feature = "verif")]
+                        crate::util::verif::rt::sched_point(crate::util::verif::rt::Kind::AtomicLoad, meta_addr.as_usize());
                         <u8 as MetadataValue>::fetch_update(
                             meta_addr,
                             set_order,
                             fetch_order,
                             |raw_byte: u8| {
+                                #[cfg(feature = "verif")]
+                                crate::util::verif::rt::sched_point(crate::util::verif::rt::Kind::AtomicCas, meta_addr.as_usize());
                                 let old_val = (raw_byte & mask) >> lshift;
                                 f(FromPrimitive::from_u8(old_val).unwrap()).map(|new_val| {
                                     (raw_byte & !mask)
@@ -960,6 +972,13 @@ impl SideMetadataSpec {
                     .map(|x| FromPrimitive::from_u8((x & mask) >> lshift).unwrap())
                     .map_err(|x| FromPrimitive::from_u8((x & mask) >> lshift).unwrap())
                 } else {
+                    #[cfg(feature = "verif")]
+                    crate::util::verif::rt::sched_point(crate::util::verif::rt::Kind::AtomicLoad, meta_addr.as_usize());
+                    #[cfg(feature = "verif")]
+                    let f = |x: T| {
+                        crate::util::verif::rt::sched_point(crate::util::verif::rt::Kind::AtomicCas, meta_addr.as_usize());
+                        f(x)
+                    };
                     unsafe { T::fetch_update(meta_addr, set_order, fetch_order, f) }
                 }
             },
